@@ -136,6 +136,36 @@ def two_pass_agreement(ctx, clause):
     return obs, len(pa & pb)
 
 
+def one_answer_per_solution(ctx, clause):
+    """A node selector's answers: the endpoint side and the local side both return one element per solution of the query,
+    in solution order (a node bound in two solutions is answered twice by both, so selected-node counts agree)."""
+    from ..abseval import Distinct
+    p = ctx.p
+    A, B = Distinct("node-A"), Distinct("node-B")
+    obs = []
+    f = p.func("shexer.io.sparql.query:query_endpoint_single_variable")
+    ev = Evaluator(ctx)
+    vk, rk, bk = (p.const("shexer.io.sparql.query", n) for n in ("_VALUE_KEY", "_RESULTS_KEY", "_BINDINGS_KEY"))
+    V = "v"
+    ev.stubs = {"_query_endpoint_json_result": {rk: {bk: [{V: {vk: A, "type": "uri"}}, {V: {vk: B, "type": "uri"}}, {V: {vk: A, "type": "uri"}}]}}}
+    outs = ev.outcomes(f, {"endpoint_url": Distinct("url"), "str_query": Distinct("query"), "variable_id": V})
+    ok = outs == [("return", [A, B, A])]
+    obs.append(Ob(clause, "R-TABLE", "R-TABLE|one-answer-per-solution|endpoint", f.loc(), ok,
+                  "solutions (A, B, A) -> answers [A, B, A] from the endpoint" if ok else
+                  "three solutions binding A, B, A: the endpoint side answers %s, the local side one element per solution" % (outs,)))
+    g = p.method("RdflibSgraph", "query_single_variable")
+    ev2 = Evaluator(ctx)
+    outs = ev2.outcomes(g, {"str_query": Distinct("query"), "variable_id": V},
+                        {"self._rdflib_graph": {"query()": [(A,), (B,), (A,)]}})
+    got = outs[0][1] if len(outs) == 1 and outs[0][0] == "return" and isinstance(outs[0][1], list) else None
+    flat = [x.parts[0] if hasattr(x, "parts") and len(x.parts) == 1 else x for x in (got or [])]
+    ok = flat == [A, B, A]
+    obs.append(Ob(clause, "R-TABLE", "R-TABLE|one-answer-per-solution|local", g.loc(), ok,
+                  "solutions (A, B, A) -> answers [A, B, A] from the local graph" if ok else
+                  "three solutions binding A, B, A: the local side answers %s, the endpoint side one element per solution" % (outs,)))
+    return obs
+
+
 def check(ctx, tier):
     obs = []
     o_pol, n_sites = ctx.attempt(polarity, ctx, "D-a", default=([], 0))
@@ -154,6 +184,7 @@ def check(ctx, tier):
     obs += ctx.attempt(corners_table, ctx, "D-c", default=[])
     o_tp, n_tp = ctx.attempt(two_pass_agreement, ctx, "D-d", default=([], 0))
     obs += o_tp
+    obs += ctx.attempt(one_answer_per_solution, ctx, "D-e", default=[])
     exceptions.apply(obs)
     return {"obs": obs, "floors": [Floor("EndpointSGraph construction sites", n_sites, 3), Floor("cache-flag control sites", len(oi.sites), 4),
                                    Floor("options common to both passes", n_tp, 20)],
